@@ -1,5 +1,5 @@
 """C02 - parsers fail closed: no explicit panic reachable, no unbounded input-derived allocation (structural clauses)."""
-import re, collections
+import re, sys, collections
 from .facts import op_local, Slice, place_fields, op_const, TRANSPARENT_CALLS, strip_regions
 from .lib import bool_switches, copies_of
 from . import panicreach as pr
@@ -32,8 +32,8 @@ ASSUMPTIONS = ["integer overflow and loop termination are NOT decided; index bou
                "a helper's precondition is checked at its in-closure call sites only (external callers of pub helpers are not byte-parser paths)",
                "taint is per (struct, field) / per local; flows through heap containers are not followed"]
 
-ENTRY = re.compile(r"^(parse\w*|from_bytes|read_options|decompress\w*|apply_patch\w*|deserialize|open|load\w*|from_compressed|from_reader|read_\w+|from_data|from_slice|from_str|detect|read)$")
-FILES = re.compile(r"cascette-formats/src/|cascette-client-storage/src/(index/|kmt/key_state|lru/lru_file|shmem/|build_info|storage/compaction|storage/local_header)|cascette-protocol/src/(mime_parser|v1_mime/)")
+ENTRY = re.compile(r"^(parse\w*|from_bytes|from_mapped|read_options|decompress\w*|apply_patch\w*|deserialize|open|load\w*|from_compressed|from_reader|read_\w+|from_data|from_slice|from_str|detect|read|extract_\w+|is_v1_mime_response)$")
+FILES = re.compile(r"cascette-formats/src/|cascette-client-storage/src/(index/|kmt/key_state|lru/lru_file|lru/mod|shmem/|build_info|storage/compaction|storage/local_header)|cascette-protocol/src/(mime_parser|v1_mime/)")
 
 # discharged by reading, one named site each (key -> reason)
 DISCHARGED = {
@@ -163,9 +163,26 @@ def classify_sources(prog, b, sl, br_adts, depth=0):
             tb = prog.bodies[c.id]
             if not re.match(r"^(u32|u64|usize|i64|u128)$", tb.local_ty(0) or ""):
                 continue
-            fam = prog.family(tb)
+            fam = list(prog.family(tb))
             if sum(len(x.blocks) for x in fam) > 120:
                 continue
+            # one more level: small workspace functions the accessor calls or passes by reference (`header.as_ref().map_or_else(.., RootHeader::total_files)`)
+            extra = []
+            for fb in fam:
+                ids = {cc.id for cc in fb.calls if cc.id in prog.bodies}
+                for i_, j_, st_ in fb.stmts():
+                    for o_ in st_["r"].get("o", []):
+                        if o_.get("k") == "fn" and o_["fn"].get("id") in prog.bodies:
+                            ids.add(o_["fn"]["id"])
+                for cc in fb.calls:
+                    for a_ in cc.args:
+                        if a_.get("k") == "fn" and a_["fn"].get("id") in prog.bodies:
+                            ids.add(a_["fn"]["id"])
+                for id_ in ids:
+                    xb = prog.bodies[id_]
+                    if xb.krate.startswith(("cascette_", "verif_selftest")) and len(xb.blocks) <= 12 and xb not in fam and xb not in extra:
+                        extra.append(xb)
+            fam = fam + extra
             best = None
             for fb in fam:
                 for i, j, st in fb.stmts():
@@ -543,7 +560,18 @@ def param_guard(b, sink, sl, params):
 
 
 # E-bounds sites that stay unproven although the code is right: the arithmetic the engine cannot do, per site
+_VFS = ("the span loop `for _ in 0..span_count { .. pos += span_size }` runs after `pos + span_count * span_size <= data.len()` was checked (and span_count <= 224): "
+        "every access inside an iteration is below pos_start + (i + 1) * span_size <= len. The bound is a product of two values, outside the engine's linear facts")
+_CK = ("checksum_line_end is either raw.len() or start + pos + 1 with pos < len(raw[start..]) (computed inside a map_or closure the engine does not enter), so "
+       "checksum_line_end <= raw.len(); hex_end <= checksum_line_end; raw[checksum_line_end - 1] / raw[hex_end - 1] sit behind `> 0` tests and raw[hex_start..hex_end] "
+       "behind `hex_start < hex_end`")
 DISCHARGED_R3 = {
+    "C02.R3|cascette_protocol::mime_parser::extract_checksum|bounds|loop-carried": _CK,
+    "C02.R3|cascette_protocol::mime_parser::extract_checksum|range|loop-carried": _CK,
+    "C02.R3|cascette_formats::tvfs::vfs_table::<VfsTable>::parse|bounds|loop-carried": _VFS,
+    "C02.R3|cascette_formats::tvfs::vfs_table::<VfsTable>::parse|range|loop-carried": _VFS,
+    "C02.R3|cascette_formats::tvfs::vfs_table::<VfsTable>::read_entry_at|bounds|loop-carried": _VFS,
+    "C02.R3|cascette_formats::tvfs::vfs_table::<VfsTable>::read_entry_at|range|loop-carried": _VFS,
     "C02.R3|cascette_formats::patch_index::parser::parse_block2|range|input":
         "`&data[pos..]` in `for _ in 0..entry_count { .. pos += esize }` after `data.len() >= 5 + entry_count * esize` was checked: pos = 5 + i*esize "
         "<= 5 + entry_count*esize <= len. The bound is a product of two input values (non-linear), outside the engine's linear facts",
@@ -596,7 +624,8 @@ DISCHARGE_PREMISES = {
 
 
 def strict_input(t, br):
-    if t == "input":
+    if t in ("input", "position"):
+        # (a position returned by find / rfind is a function of the haystack's content: two positions need not be ordered)
         return True
     if t.startswith("field:"):
         adt = t[6:].rsplit(".", 1)[0]
@@ -623,7 +652,7 @@ def r3_bounds(ctx, ents, cl, krate_prefix="cascette_", discharged=DISCHARGED_R3)
                 # R4: arithmetic in a NARROW unsigned type (u8/u16/u32) on input-derived operands: in a release build it wraps silently and every
                 # bound proven for the mathematical value is void; in a debug build it panics. Wide (usize/u64) additions of positions and all
                 # subtractions are not decided (their count is reported).
-                m_ = re.match(r"^(Add|Mul) in (u8|u16|u32)$", sk.what)
+                m_ = re.match(r"^(Add|Mul|Sub) in (u8|u16|u32)$", sk.what)
                 strict_o = sorted(t for t in sk.taint if strict_input(t, br))
                 if not m_ or not strict_o:
                     ocnt["proven" if sk.proven else "not decided"] += 1
@@ -661,13 +690,18 @@ def r3_bounds(ctx, ents, cl, krate_prefix="cascette_", discharged=DISCHARGED_R3)
                         if at_[0] == "arg":
                             strict += sorted("%s (passed by a caller for `%s`)" % (t, a.b.local_name(at_[1])) for t in getattr(a, "param_in", {}).get(at_[1], ()) if strict_input(t, br))
                 strict = sorted(set(strict))
+            if not strict and any(at_[0] == "phi" for g in sk.goals if g is not None for at_ in g.atoms()):
+                # control dependence: a loop-carried index in a function that reads input - how often the loop runs and by how much the index
+                # advances is decided by the input even when no input VALUE flows into the index (`for _ in 0..page_count { .. offset += PAGE }`)
+                if any(kv[0] == "input" or strict_input(kv[0], br) for kv in a.atom_src.values()):
+                    strict = ["loop"]
             if not strict:
                 cnt["not decided"] += 1
                 nd[bid] += 1
                 continue
             ctx.saw(a.b)
             t0 = strict[0].split(" (passed")[0]
-            tag = t0 if t0 == "input" else "field " + t0[6:].split("::")[-1]
+            tag = t0 if t0 in ("input", "position") else "loop-carried" if t0 == "loop" else "field " + t0[6:].split("::")[-1]
             if " (passed" in strict[0]:
                 tag = "param <- " + tag
             if sk.kind == "precondition":
@@ -703,8 +737,134 @@ def r3_bounds(ctx, ents, cl, krate_prefix="cascette_", discharged=DISCHARGED_R3)
     ctx.info("C02.R4 overflow asserts: %s" % dict(ocnt))
 
 
+def r5_bounded_recursion(ctx, ents, cl):
+    """nesting in the input must not become nesting on the stack without a limit: every recursive cycle in the parser closure carries a depth
+    counter - an integer parameter that the recursive call passes on incremented and that is compared against a limit before the call - or
+    is discharged by key. A stack overflow is not an error return: the process is killed (SIGABRT), catch_unwind does not help."""
+    rule = "C02.R5"
+    ctx.rule(rule, "every recursive cycle among workspace functions in the parser closure has a depth counter that is compared with a limit")
+    prog = ctx.prog
+    nodes = [b for b in cl if prog.bodies[b].krate.startswith("cascette_")]
+    root_of = {b: (prog.bodies[b].root or b) for b in nodes}
+    succ = collections.defaultdict(set)
+    for b in nodes:
+        for c in prog.bodies[b].calls:
+            if c.id in prog.bodies and c.id in cl and prog.bodies[c.id].krate.startswith("cascette_"):
+                tgt = root_of.get(c.id, c.id)
+                if tgt == root_of[b] and c.id != tgt:
+                    continue      # a function calling its own closure (tracing macros) is not recursion
+                succ[root_of[b]].add(tgt)
+    # Tarjan SCC
+    index = {}
+    low = {}
+    stack = []
+    on = set()
+    sccs = []
+    sys.setrecursionlimit(10000)
+
+    def strong(v):
+        index[v] = low[v] = len(index)
+        stack.append(v)
+        on.add(v)
+        for w in succ.get(v, ()):
+            if w not in index:
+                strong(w)
+                low[v] = min(low[v], low[w])
+            elif w in on:
+                low[v] = min(low[v], index[w])
+        if low[v] == index[v]:
+            comp = []
+            while True:
+                w = stack.pop()
+                on.discard(w)
+                comp.append(w)
+                if w == v:
+                    break
+            if len(comp) > 1 or v in succ.get(v, ()):
+                sccs.append(sorted(comp))
+    for v in sorted(set(root_of.values())):
+        if v not in index:
+            strong(v)
+    n = 0
+    for comp in sorted(sccs):
+        n += 1
+        members = set(comp)
+        bounded = False
+        for m in comp:
+            fam = [x for x in prog.bodies.values() if (x.root or x.id) == m]
+            for fb in fam:
+                for c in fb.calls:
+                    if root_of.get(c.id, c.id) not in members:
+                        continue
+                    # an integer argument of the recursive call that is `param + const` (or a field incremented before), and a comparison on that param
+                    for a_ in c.args:
+                        l = op_local(a_)
+                        if l is None or not re.match(r"^(u8|u16|u32|u64|usize)$", fb.local_ty(l) or ""):
+                            continue
+                        sl = Slice(fb, [l], transparent=ARITH)
+                        incr = any(o[0] in ("Add", "AddWithOverflow") for o in sl.ops)
+                        params = [p_ for p_ in sl.locals if 1 <= p_ <= fb.argc]
+                        if not (incr and params):
+                            continue
+                        for i, j, st in fb.stmts():
+                            r = st["r"]
+                            if r["k"] == "Bin" and r["op"] in ("Lt", "Le", "Gt", "Ge") and fb.dominates(i, c.bb):
+                                sides = [(op_local(o) is not None and bool(Slice(fb, [op_local(o)], transparent=ARITH).locals & set(params))) for o in r["o"]]
+                                if any(sides) and not all(sides):
+                                    other = r["o"][1] if sides[0] else r["o"][0]
+                                    # the limit is a constant or a value that does not depend on the function's other parameters (a configured
+                                    # maximum), not another offset / length of the input
+                                    ol = op_local(other)
+                                    lim_const = op_const(other) is not None
+                                    lim_indep = ol is not None and not any(1 <= p_ <= fb.argc for p_ in Slice(fb, [ol], transparent=ARITH).locals) \
+                                        and not any(LEN_SRC.search(x.name) for x in Slice(fb, [ol], transparent=ARITH).calls)
+                                    if lim_const or lim_indep:
+                                        bounded = True
+        if not bounded:
+            # ... or a counter kept in the parser object: a field that some member of the cycle increments and compares with a limit
+            inc_fields, cmp_fields = set(), set()
+            for m in comp:
+                for fb in [x for x in prog.bodies.values() if (x.root or x.id) == m]:
+                    for i, j, st in fb.stmts():
+                        r = st["r"]
+                        if len(st["p"]) > 1 and r["k"] == "Use" and op_local(r["o"][0]) is not None:
+                            f_ = tuple(place_fields(st["p"]))
+                            sl = Slice(fb, [op_local(r["o"][0])], transparent=ARITH)
+                            if f_ and any(o[0] in ("Add", "AddWithOverflow") for o in sl.ops) and any(tuple(x) == f_ for x in sl.fields):
+                                inc_fields.add(f_)
+                        if r["k"] == "Bin" and r["op"] in ("Lt", "Le", "Gt", "Ge"):
+                            for a_, o_ in ((r["o"][0], r["o"][1]), (r["o"][1], r["o"][0])):
+                                la = op_local(a_)
+                                if la is None:
+                                    continue
+                                sa = Slice(fb, [la], transparent=ARITH)
+                                lim_ok = op_const(o_) is not None or (op_local(o_) is not None and not Slice(fb, [op_local(o_)], transparent=ARITH).fields
+                                                                    and not any(LEN_SRC.search(x.name) for x in Slice(fb, [op_local(o_)], transparent=ARITH).calls))
+                                if lim_ok:
+                                    cmp_fields |= {tuple(x) for x in sa.fields}
+            if inc_fields & cmp_fields:
+                bounded = True
+        key = [ctx._stable(comp[0]), "recursion", len(comp)]
+        k0 = ctx._stable("|".join([rule] + [str(x) for x in key]))
+        ctx.saw(prog.bodies[comp[0]])
+        if bounded:
+            ctx.ok(rule, key, "recursion carries a compared depth counter", prog.bodies[comp[0]].loc(), sample={"cycle": [ctx._stable(x) for x in comp]})
+        elif k0 in DISCHARGED_R5:
+            ctx.ok(rule, key + ["discharged"], "discharged by reading: " + DISCHARGED_R5[k0], prog.bodies[comp[0]].loc(), sample={"cycle": [ctx._stable(x) for x in comp]})
+        else:
+            ctx.bad(rule, key,
+                    "recursive cycle %s in the parser closure has no depth counter that is compared with a limit: input nested deeply enough overflows the "
+                    "stack, which kills the process (SIGABRT) instead of returning an error" % " -> ".join(ctx._stable(x).split("::")[-1] for x in comp + comp[:1]),
+                    prog.bodies[comp[0]].loc(), {"cycle": [ctx._stable(x) for x in comp]})
+    ctx.info("C02.R5: %d recursive cycle(s) in the parser closure" % n)
+
+
+DISCHARGED_R5 = {}
+
+
 def run(ctx):
     ents, cl = entries_and_closure(ctx)
+    r5_bounded_recursion(ctx, ents, cl)
     r3_bounds(ctx, ents, cl)
     r1_no_panic(ctx, ents, cl)
     r2_alloc(ctx, ents, cl)
